@@ -15,8 +15,8 @@ func init() {
 		Props: []string{"C17"}, Floor: 5, Run: runVF04})
 	register(&Rule{ID: "VF-08", Title: "verifier pass-through: one call of the same-named inner method with the parameters in order, results returned unchanged",
 		Props: []string{"C18"}, Floor: 5, Run: runVF08})
-	register(&Rule{ID: "VF-09", Title: "the verifier writes only a leader checkpoint's empty Extensions; foreign extensions are refused",
-		Props: []string{"C18"}, Floor: 2, Run: runVF09})
+	register(&Rule{ID: "VF-09", Title: "the verifier writes only a leader checkpoint's empty Extensions, in the caller's entry; foreign extensions are refused",
+		Props: []string{"C18", "C17"}, Floor: 2, Run: runVF09})
 	register(&Rule{ID: "ORD-24", Title: "verifier bookkeeping order: state and hand-off only after the inner store accepted the batch; first-index before reading; one report per received checkpoint; counters only after the inner store accepted the batch",
 		Props: []string{"C16", "C18", "C20", "C17"}, Floor: 4, Run: runORD24})
 	register(&Rule{ID: "ORD-25", Title: "appends never block on the reporter: non-blocking hand-off with the drop counted, callback never on the append path",
@@ -445,6 +445,22 @@ func runVF09(p *Prog, r *RuleRun) {
 			}
 			r.Check(f.TS["cp"] == "yes" && f.TS["ext"] == "empty", key, posOf(p, st), "Extensions is written only for a checkpoint whose Extensions are empty (the leader's new checkpoint)",
 				fmt.Sprintf("the verifier overwrites raft.Log.Extensions outside the only allowed case (is-checkpoint=%q, len(Extensions)==0: %q): replicated or foreign extension data would be clobbered; path: %s", f.TS["cp"], f.TS["ext"], trace(f)))
+			// the stamp goes into the caller's entry, not into a copy: raft replicates the very structs it handed to
+			// StoreLogs (its LogCache keeps those pointers), and a follower tells "leader wrote metadata" from
+			// "I am the leader" by len(Extensions) alone
+			if fa, ok := st.Addr.(*ssa.FieldAddr); ok {
+				base := fa.X
+				for {
+					if phi, ok := base.(*ssa.Phi); ok && len(phi.Edges) > 0 {
+						base = phi.Edges[0]
+						continue
+					}
+					break
+				}
+				_, isCopy := base.(*ssa.Alloc)
+				r.Check(!isCopy, key+":target", posOf(p, st), "the metadata is written into the entry the caller passed in (what raft replicates)",
+					"the verification metadata is written into a local copy of the checkpoint entry: the entry the caller keeps (and raft's log cache replicates to followers) has empty Extensions, so a follower fed from it takes itself for the leader and verifies the range against its own sum - in-flight corruption goes unreported")
+			}
 			if f.TS["cp"] == "yes" && f.TS["ext"] == "empty" {
 				f.TS["stamped"] = "1"
 				f.TS["ext"] = "nonempty" // it now carries the metadata
